@@ -1641,6 +1641,17 @@ static Node *asm_stmt(Token **rest, Token *tok) {
 //      | ident ":" stmt
 //      | "{" compound-stmt
 //      | expr-stmt
+// A selection or iteration statement is a block of its own, and so is
+// each of its substatements (C11 6.8.4p3, 6.8.5p5): a tag or an
+// enumeration constant declared in a controlling expression or in a
+// substatement is not visible after the statement.
+static Node *substmt(Token **rest, Token *tok) {
+  enter_scope();
+  Node *node = stmt(rest, tok);
+  leave_scope();
+  return node;
+}
+
 static Node *stmt(Token **rest, Token *tok) {
   if (equal(tok, "return")) {
     Node *node = new_node(ND_RETURN, tok);
@@ -1661,18 +1672,21 @@ static Node *stmt(Token **rest, Token *tok) {
 
   if (equal(tok, "if")) {
     Node *node = new_node(ND_IF, tok);
+    enter_scope();
     tok = skip(tok->next, "(");
     node->cond = expr(&tok, tok);
     tok = skip(tok, ")");
-    node->then = stmt(&tok, tok);
+    node->then = substmt(&tok, tok);
     if (equal(tok, "else"))
-      node->els = stmt(&tok, tok->next);
+      node->els = substmt(&tok, tok->next);
+    leave_scope();
     *rest = tok;
     return node;
   }
 
   if (equal(tok, "switch")) {
     Node *node = new_node(ND_SWITCH, tok);
+    enter_scope();
     tok = skip(tok->next, "(");
     node->cond = expr(&tok, tok);
     tok = skip(tok, ")");
@@ -1683,8 +1697,9 @@ static Node *stmt(Token **rest, Token *tok) {
     char *brk = brk_label;
     brk_label = node->brk_label = new_unique_name();
 
-    node->then = stmt(rest, tok);
+    node->then = substmt(rest, tok);
 
+    leave_scope();
     current_switch = sw;
     brk_label = brk;
     return node;
@@ -1762,7 +1777,7 @@ static Node *stmt(Token **rest, Token *tok) {
       node->inc = expr(&tok, tok);
     tok = skip(tok, ")");
 
-    node->then = stmt(rest, tok);
+    node->then = substmt(rest, tok);
 
     leave_scope();
     brk_label = brk;
@@ -1772,6 +1787,7 @@ static Node *stmt(Token **rest, Token *tok) {
 
   if (equal(tok, "while")) {
     Node *node = new_node(ND_FOR, tok);
+    enter_scope();
     tok = skip(tok->next, "(");
     node->cond = expr(&tok, tok);
     tok = skip(tok, ")");
@@ -1781,8 +1797,9 @@ static Node *stmt(Token **rest, Token *tok) {
     brk_label = node->brk_label = new_unique_name();
     cont_label = node->cont_label = new_unique_name();
 
-    node->then = stmt(rest, tok);
+    node->then = substmt(rest, tok);
 
+    leave_scope();
     brk_label = brk;
     cont_label = cont;
     return node;
@@ -1796,7 +1813,8 @@ static Node *stmt(Token **rest, Token *tok) {
     brk_label = node->brk_label = new_unique_name();
     cont_label = node->cont_label = new_unique_name();
 
-    node->then = stmt(&tok, tok->next);
+    enter_scope();
+    node->then = substmt(&tok, tok->next);
 
     brk_label = brk;
     cont_label = cont;
@@ -1805,6 +1823,7 @@ static Node *stmt(Token **rest, Token *tok) {
     tok = skip(tok, "(");
     node->cond = expr(&tok, tok);
     tok = skip(tok, ")");
+    leave_scope();
     *rest = skip(tok, ";");
     return node;
   }
